@@ -59,8 +59,32 @@ def target_program(kind: str, is_async: bool, layout: str, targets: List[Optiona
     return src
 
 
+def extended_arg_program(kind: str, is_async: bool, layout: str, nglobals: int) -> str:
+    """The with line BEGINS with an instruction that needs an EXTENDED_ARG prefix (LOAD_GLOBAL of a
+    name whose index is >= 128): dis attaches the line start to the prefix."""
+    kw = "async with" if is_async else "with"
+    sus = "yield 1" if kind == "gen" else "await E.t()"
+    filler = " + ".join(f"g{i}" for i in range(nglobals))
+    items = ["GE.m(1) as x1", "GE.m(2)"]
+    if layout == "one_line":
+        head = f"{kw} " + ", ".join(items) + ":"
+    elif layout == "item_per_line":
+        head = f"{kw} " + ", \\\n        ".join(items) + ":"
+    else:
+        head = f"{kw} (\n        " + ",\n        ".join(items) + ",\n    ):"
+    lines = [f"total = {filler}", "y = 1", head, f"    {sus}", f"{kw} GE.m(3) as x3:", f"    {sus}", sus]
+    src = ("def prog(E):\n" if kind == "gen" else "async def prog(E):\n") + "".join("    " + l + "\n" for l in lines)
+    compile(src, "<prog>", "exec")
+    return src
+
+
 def target_corpus(tier: str) -> List[Tuple[Dict[str, Any], str]]:
     out = []
+    for li, layout in enumerate(["one_line", "item_per_line", "parenthesised"]):
+        for kind, is_async in (("gen", False), ("coro", True)):
+            for ng in ((130, 140) if tier == "quick" else (120, 127, 128, 130, 140, 199)):
+                out.append(({"kind": kind, "layout": layout, "extended_arg_line": ng, "async": is_async, "target_corpus": True},
+                            extended_arg_program(kind, is_async, layout, ng)))
     allt = SUPPORTED_TARGETS + UNSUPPORTED_TARGETS
     for li, layout in enumerate(LAYOUTS):
         for ti, t in enumerate(allt):
